@@ -131,12 +131,17 @@ func checkFullWith(c *Case, prop string, compute func(n *hx.Node, fd *hx.Field, 
 	// resolve the merged field once - the property counts failures, so anything from one entry
 	// to one per occurrence is accepted for such a path.
 	needMax := map[string]int{}
+	perSel := map[string]map[int]int{} // entries expected per path and per selection (occurrence of the response key)
 	for _, e := range exp.Errors {
 		ps := hx.PathString(e.Path)
 		if leaked["data."+ps] {
 			continue
 		}
 		needMax[ps]++
+		if perSel[ps] == nil {
+			perSel[ps] = map[int]int{}
+		}
+		perSel[ps][e.Sel]++
 	}
 	for ps, kind := range exp.Borderline {
 		path := exp.BorderPath[ps]
@@ -191,9 +196,16 @@ func checkFullWith(c *Case, prop string, compute func(n *hx.Node, fd *hx.Field, 
 		if discarded {
 			continue
 		}
+		// at least what one occurrence of the response key yields (all the members of a group), at
+		// most the sum over all occurrences
 		min := 0
-		if needMax[k] > 0 {
-			min = 1
+		for _, n := range perSel[k] {
+			if min == 0 || n < min {
+				min = n
+			}
+		}
+		if min == 0 && needMax[k] > 0 {
+			min = 1 // (a coercion failure of a borderline leaf)
 		}
 		if got[k] < min || got[k] > needMax[k] {
 			add("error-paths", "", "path %q: expected %d..%d error entries, got %d%s", k, min, needMax[k], got[k], ctx())
